@@ -33,8 +33,12 @@ static Case gen_case ()
 {	Case c ;
 	int maj = *rc::gen::elementOf (std::vector<int> (containers, containers + 5)) ;
 	int sub = *rc::gen::element (SF_FORMAT_PCM_16, SF_FORMAT_PCM_24, SF_FORMAT_FLOAT) ;
-	c.set ("fmt", format_str (maj | sub)) ; c.seti ("format", maj | sub) ;
-	c.seti ("ch", *rc::gen::element (1, 2, 2, 3, 4, 6)) ;
+	int ch = *rc::gen::element (1, 2, 2, 3, 4, 6) ;
+	// byte order: the container's own in half of the cases, otherwise an explicit one where sf_format_check accepts it (RIFX, AIFF-C 'sowt', little-endian CAF)
+	int en = *rc::gen::element (0, 0, (int) SF_ENDIAN_LITTLE, (int) SF_ENDIAN_BIG) ;
+	if (en) { SF_INFO ci ; memset (&ci, 0, sizeof (ci)) ; ci.format = maj | sub | en ; ci.channels = ch ; ci.samplerate = 44100 ; if (!sf_format_check (&ci)) en = 0 ; }
+	c.set ("fmt", format_str (maj | sub | en)) ; c.seti ("format", maj | sub | en) ;
+	c.seti ("ch", ch) ;
 	int sup = supported_items (maj) ; int items = 0 ;
 	for (int bit = 1 ; bit <= 32 ; bit <<= 1) if ((sup & bit) && *rangeOf<int> (0, 1)) items |= bit ;
 	if (!items) items = sup & -sup ;
